@@ -3,7 +3,7 @@
   the harness observed on the real implementation, evaluates the property monitors on the observed
   journals, prints one JSON verdict per line.
 -/
-import Esc.Json
+import Esc.Ops
 open Lean Esc
 
 /-- Oracle built from the recorded responses. -/
@@ -150,7 +150,20 @@ def handleLine (ds : DState) (line : String) : DState × Json :=
       match fromJson? j with
       | .error e => (ds, Json.mkObj [("error", toJson ("scan: " ++ e))])
       | .ok (sc : ScanCase) => handleScan ds sc
-    | .ok other => (ds, Json.mkObj [("error", toJson ("unknown op " ++ other))])
+    | .ok other =>
+      let out : Option OpOut := match other with
+        | "arith" => some (handleArith j)
+        | "taintop" => some (handleTaintOp j)
+        | "filter" => some (handleFilter j)
+        | "nodefilter" => some (handleNodeFilter j)
+        | "resources" => some (handleResources j)
+        | "awsop" => some (handleAwsOp j)
+        | _ => none
+      match out with
+      | none => (ds, Json.mkObj [("error", toJson ("unknown op " ++ other))])
+      | some r =>
+        let detail := if r.diffs.isEmpty && r.mon.isEmpty then [] else [("model", r.model)]
+        (ds, Json.mkObj ([("diffs", toJson r.diffs), ("mon", toJson r.mon), ("branches", toJson ([] : List String)), ("nt", toJson r.tag)] ++ detail))
 
 partial def loop (h : IO.FS.Stream) (out : IO.FS.Stream) (ds : DState) : IO Unit := do
   let line ← h.getLine
